@@ -383,7 +383,7 @@ func v6part(r *mon.Rec, t *testing.T) {
 		}
 	}
 	r.Set("v6_enumerated_tables", k)
-	n := r.Pick(30000, 600000)
+	n := r.Pick(30000, 3000000)
 	for i := 0; i < n; i++ {
 		if r.Mine(i) {
 			judge6(r, t, gen6s(r.Rand("c13v6", i)))
